@@ -47,7 +47,7 @@ var (
 	// LetNames is the pool of names bound by let statements and parameters; queries
 	// mention them both bound and unbound so that the prelude in force is visible in the SQL.
 	LetNames = []string{"x", "y", "n", "s", "lim"}
-	Columns  = []string{"a", "b", "c", "k", "EventType", "State", "`my col`", "`semi;col`", "m", "`tick``tock`", "`d``;b`"}
+	Columns  = []string{"a", "b", "c", "k", "EventType", "State", "`my col`", "`semi;col`", "m", "`tick``tock`", "`d``;b`", "`back\\`", "`sl\\;`"}
 	Tables   = []string{"T", "U", "Logs", "StormEvents", "`my table`", "`t;1`"}
 	// KnownFuncs lists every built-in of the function table with a correct arity.
 	KnownFuncs = []struct {
@@ -323,6 +323,9 @@ func (g *G) Query(names []string, mustUse bool) []Tok {
 	for attempt := 0; ; attempt++ {
 		out := toks(g.pick(Tables))
 		n := g.R.Pick([]int{2, 5, 4, 2, 1})
+		if g.R.Chance(1, 25) {
+			n = g.R.Range(17, 48) // a long pipeline: dozens of sub-queries
+		}
 		for i := 0; i < n; i++ {
 			out = append(out, g.operator(g.R.Intn(3), names, true)...)
 		}
@@ -401,7 +404,7 @@ func (g *G) LetBad(name string) []Tok {
 
 // QueryBad returns a statement that fails at lex, parse or compile level.
 func (g *G) QueryBad() []Tok {
-	switch g.R.Intn(16) {
+	switch g.R.Intn(18) {
 	case 0:
 		return toks("!")
 	case 1:
@@ -433,8 +436,13 @@ func (g *G) QueryBad() []Tok {
 		return toks("let")
 	case 14:
 		return toks(g.pick(Tables), "|", "where", "a", "==", "1.", "and", "b", "==", "0x")
-	default:
+	case 15:
 		return toks(g.pick(Tables), "|", "where", "a", "-", "-", "b", "==", `"ends with escaped quote\"`)
+	case 16:
+		// a lone ! swallows the next character: what follows only LOOKS like a string / comment
+		return toks(g.pick(Tables), "|", "where", "a", "==", "!'x", "and", "b", "==", "1")
+	default:
+		return toks(g.pick(Tables), "|", "where", "a", "==", "!//c", "and", "b")
 	}
 }
 
